@@ -38,7 +38,7 @@ def install_cbc():
     return out
 
 
-def gen_instance(rng, graph=None, max_comps=6, max_agents=4, tiny=False, asymmetric_routes=False, secp_hint_p=0.4):
+def gen_instance(rng, graph=None, max_comps=6, max_agents=4, tiny=False, asymmetric_routes=False, secp_hint_p=0.4, pin_bias=False):
     graph = graph or rng.choice(list(GRAPHS))
     case = gen.gen_case(rng, min_vars=1, max_vars=3 if tiny else 5, max_dom=2, palettes=("ties",), max_space=64,
                         var_costs=False, binary_only=(graph == "ordered_graph"), nary=not tiny,
@@ -54,7 +54,7 @@ def gen_instance(rng, graph=None, max_comps=6, max_agents=4, tiny=False, asymmet
     na = rng.randint(1, 3 if tiny else max_agents)
     agents = ["a%d" % i for i in range(na)]
     total = sum(fp.values())
-    capkind = rng.choice(["ample", "ample", "exact", "small", "mixed"])
+    capkind = rng.choice(["ample", "ample", "exact", "small", "mixed"]) if not pin_bias else rng.choice(["ample", "exact", "exact", "small", "mixed"])
     adefs = []
     default_route = rng.choice([1, 1, 2])
     routes = {}
@@ -62,7 +62,7 @@ def gen_instance(rng, graph=None, max_comps=6, max_agents=4, tiny=False, asymmet
         for b in agents[i + 1:]:
             if rng.random() < 0.5:
                 routes[(a, b)] = rng.choice([1, 2, 4, 7])
-    zero_mode = rng.choice(["default0", "nonzero", "nonzero", "some_zero"])
+    zero_mode = rng.choice(["default0", "nonzero", "nonzero", "some_zero"]) if not pin_bias else rng.choice(["default0", "nonzero", "some_zero", "some_zero", "some_zero"])
     asym = asymmetric_routes and rng.random() < 0.5
     if asym:
         for i, a in enumerate(agents):
